@@ -73,7 +73,7 @@ PROP_SYNC = {
     "C14": ["gen/SyncDec.v", "gen/SyncMisc.v", "gen/SyncEffects.v"],
     "C15": [],
     "C16": ["gen/GenConsts.v", "gen/SyncEnc.v", "gen/SyncDec.v", "gen/SyncMisc.v", "gen/SyncAcc.v"],
-    "C17": ["gen/SyncString.v", "gen/SyncAcc.v"],
+    "C17": ["gen/SyncString.v", "gen/SyncAcc.v", "gen/SyncWf.v"],
     "C18": ["gen/SyncEnc.v", "gen/SyncAcc.v", "gen/SyncDump.v", "gen/SyncString.v"],
     "C19": ["gen/SyncEnc.v", "gen/SyncDec.v", "gen/SyncAcc.v", "gen/SyncDump.v", "gen/SyncString.v"],
 }
